@@ -4,7 +4,7 @@
    with the candidate keys to classify every string), plus observation flags.  [mismatches] lists, per case, every
    disagreement tagged (defect-shape code of the position, payload class, kind). *)
 From Coq Require Import List Bool NArith ZArith String.
-From Verif Require Import Tag Encrypt.
+From Verif Require Import Tag Encrypt EncryptSpec.
 Import ListNotations.
 Open Scope list_scope.
 
@@ -45,7 +45,8 @@ Inductive kind :=
 | KCanary          (* protected canary text found in the JSON rendering of the output *)
 | KMutated         (* observation-only: the input event was modified *)
 | KUnexp           (* observation-only: value of an unexported field not preserved (F10) *)
-| KSpecLeak.       (* observation-only: the observed output violates the no_leak specification *)
+| KSpecLeak        (* observation-only: the observed output is not clean (EncryptSpec.cleanb, the predicate of theorem no_leak) *)
+| KSpecShape.      (* observation-only: the observed output is not the private copy up to leaf contents (theorem shape_preserved) *)
 
 Fixpoint leaf_eqb (a b : leaf) : bool :=
   match a, b with
@@ -59,13 +60,49 @@ Fixpoint abst (l : leaf) : leaf :=
   match l with
   | Hmac k (Plain c) => Hmac k (Plain c)
   | Hmac k Redacted => Hmac k Redacted
+  | Hmac k Opaque => Hmac k Opaque
   | Hmac _ _ => Hmac 0 Opaque
   | Enc k l' => Enc k (abst l')
   | _ => l
   end.
-Definition exposed (l : leaf) : bool := match l with Plain _ => true | _ => false end.
 Definition lkind_eqb (a b : lkind) : bool :=
   match a, b with LStr, LStr | LBytes, LBytes | LWStr, LWStr | LWBytes, LWBytes => true | _, _ => false end.
+
+
+(* structural equality of trees (tags and field attributes included) *)
+Definition opt_eqb {A} (eq : A -> A -> bool) (a b : option A) : bool :=
+  match a, b with None, None => true | Some x, Some y => eq x y | _, _ => false end.
+Fixpoint list_eqb {A} (eq : A -> A -> bool) (a b : list A) : bool :=
+  match a, b with [], [] => true | x :: r, y :: r' => eq x y && list_eqb eq r r' | _, _ => false end.
+Definition tkey_eqb (a b : tkey) : bool :=
+  match a, b with TKey k, TKey k' => N.eqb k k' | TNested a1 a2, TNested b1 b2 => N.eqb a1 b1 && N.eqb a2 b2 | _, _ => false end.
+Definition mtag_eqb (a b : mtag) : bool := opt_eqb tkey_eqb (fst a) (fst b) && String.eqb (snd a) (snd b).
+Definition stag_eqb (a b : stag) : bool :=
+  opt_eqb (fun p q : N * N => N.eqb (fst p) (fst q) && N.eqb (snd p) (snd q)) (fst a) (fst b) && String.eqb (snd a) (snd b).
+Fixpoint v_eqb (a b : v) {struct a} : bool :=
+  match a, b with
+  | VLeaf lk l, VLeaf lk' l' => lkind_eqb lk lk' && leaf_eqb l l'
+  | VNilBytes, VNilBytes => true
+  | VLeaves lk ls, VLeaves lk' ls' => lkind_eqb lk lk' && list_eqb leaf_eqb ls ls'
+  | VOther z, VOther z' => Z.eqb z z'
+  | VPtr None, VPtr None => true
+  | VPtr (Some x), VPtr (Some y) => v_eqb x y
+  | VSlice l, VSlice l' =>
+      (fix go (l l' : list v) : bool := match l, l' with [], [] => true | x :: r, y :: r' => v_eqb x y && go r r' | _, _ => false end) l l'
+  | VStruct tg fs, VStruct tg' fs' =>
+      opt_eqb (list_eqb stag_eqb) tg tg' &&
+      (fix go (fs fs' : list field) : bool :=
+         match fs, fs' with
+         | [], [] => true
+         | (nm, ex, t, x) :: r, (nm', ex', t', y) :: r' => N.eqb nm nm' && Bool.eqb ex ex' && opt_eqb String.eqb t t' && v_eqb x y && go r r'
+         | _, _ => false
+         end) fs fs'
+  | VMap tg l, VMap tg' l' =>
+      opt_eqb (list_eqb mtag_eqb) tg tg' &&
+      (fix go (l l' : list (N * v)) : bool :=
+         match l, l' with [], [] => true | (k, x) :: r, (k', y) :: r' => N.eqb k k' && v_eqb x y && go r r' | _, _ => false end) l l'
+  | _, _ => false
+  end.
 
 Definition leaf_kinds (m o : leaf) : list kind :=
   if leaf_eqb (abst m) (abst o) then []
@@ -199,6 +236,21 @@ Fixpoint spec_preserved (unexp : bool) (i o : v) {struct i} : list kind :=
   | _, _ => k
   end.
 
+(* an HMAC over a text the harness does not know (e.g. over a ciphertext, when two tags name one key) cannot be
+   attributed to a key: the observation-only oracles give it the benefit of the doubt *)
+Fixpoint trust_leaf (key : N) (l : leaf) : leaf :=
+  match l with Hmac 0 Opaque => Hmac key Opaque | Enc k l' => Enc k (trust_leaf key l') | _ => l end.
+Fixpoint trust (key : N) (x : v) : v :=
+  match x with
+  | VLeaf lk l => VLeaf lk (trust_leaf key l)
+  | VLeaves lk ls => VLeaves lk (map (trust_leaf key) ls)
+  | VStruct tg fs => VStruct tg (map (fun f : field => match f with (nm, ex, t, y) => (nm, ex, t, trust key y) end) fs)
+  | VPtr (Some y) => VPtr (Some (trust key y))
+  | VSlice l => VSlice (map (trust key) l)
+  | VMap tg l => VMap tg (map (fun ky : N * v => (fst ky, trust key (snd ky))) l)
+  | _ => x
+  end.
+
 Definition cfg_of (e : ecase) : cfg :=
   {| c_ov := e_ov e; c_wrap := e_wrap e; c_key := e_key e;
      c_encfail := fun i => memN i (e_encfail e); c_hmacfail := fun _ => e_hmacfail e |}.
@@ -222,7 +274,12 @@ Definition run_case (e : ecase) : list (N * kind) :=
    end)
   ++ (if e_unchanged e then [] else [(0%N, KMutated)])
   ++ (match e_payload e, e_obs e with
-      | PVal _ x, ObOut o _ => map (pair 4%N) (spec_preserved false x o)
+      | PVal ewi x, ObOut o _ =>
+          map (pair 4%N) (spec_preserved false x o)
+          ++ (if inGb (e_ov e) (CTop false) x && (let k := match ewi with Some _ => e_ekey e | None => e_key e end in negb (cleanb (e_ov e) k (CTop false) (trust k o)))
+              then [(root_shape (e_payload e), KSpecLeak)] else [])
+          ++ (if tosb (CTop false) x && negb (v_eqb (erase o) (erase (copyz x)))
+              then [(root_shape (e_payload e), KSpecShape)] else [])
       | _, _ => []
       end).
 
